@@ -568,7 +568,11 @@ func typesTemplate() *env.Env {
 	e := g.NewEnv()
 	e.DefineType("U", int64(0))
 	e.Define("tv", int64(7))
-	return e.NewEnv()
+	leaf := e.NewEnv()
+	// the work scope has a value and a type of its own (its tables exist)
+	leaf.DefineType("UL", "")
+	leaf.Define("lv", int64(1))
+	return leaf
 }
 
 // writers are the type programs that assign to a variable of an outer scope of the template: they are
